@@ -100,10 +100,8 @@ func c12Block(kind int, order *big.Int, rnd []byte) []byte {
 	case 6:
 		v.Sub(new(big.Int).Lsh(big.NewInt(1), 256), big.NewInt(1))
 	default:
-		b := fitKey(rnd, 32)
-		b[0] &= 0x7f
-		b[31] |= 1
-		return b
+		// uniform 32 bytes: the top bits are deliberately NOT cleared (a value >= order is simply rejected)
+		return fitKey(rnd, 32)
 	}
 	return v.FillBytes(make([]byte, 32))
 }
@@ -193,7 +191,9 @@ func execC12(t *testing.T, p *sim.Program, c *sim.Ctx) {
 	}
 	if expect == nil {
 		// no acceptable block scripted: the filler decides; make the filler's first block acceptable and known
-		b := c12Block(7, cs.order, append(fill, rnd...))
+		b := fitKey(append(append([]byte{}, fill...), rnd...), 32)
+		b[0] &= 0x7f // guaranteed in range for both group orders (only this fallback block is constrained)
+		b[31] |= 1
 		v := new(big.Int).SetBytes(b)
 		if cs.xor42 {
 			b[1] ^= 0x42
